@@ -61,7 +61,7 @@ class UnwhitenedVariationalStrategy(_VariationalStrategy):
     @cached(name="prior_distribution_memo")
     def prior_distribution(self) -> MultivariateNormal:
         out = self.model.forward(self.inducing_points)
-        res = MultivariateNormal(out.mean, out.lazy_covariance_matrix.add_jitter(self.jitter_val))
+        res = MultivariateNormal(out.mean, out.lazy_covariance_matrix.add_jitter())
         return res
 
     @property
